@@ -29,6 +29,29 @@ Definition observe_part (v : env) (root : rnode) : res jt :=
   tj <- enc_rose (fun s => Ok (jstr s)) tv ;;
   Ok (JL [enc_anode m; pj; rj; tj; enc_ranges (c_ranges s)]).
 
+(* File.get_content(root) / get_text(root) with a given element of the (merged) tree:
+   new_depth_collector(file, root) -- a fresh collector walked from that element *)
+Fixpoint subtree (t : anode) (p : list nat) : option anode :=
+  match p with
+  | [] => Some t
+  | i :: r =>
+      match t with
+      | AE _ ks => match nth_error ks i with Some k => subtree k r | None => None end
+      | AX _ => None
+      end
+  end.
+
+Definition observe_part_at (v : env) (root : rnode) (path : list nat) : res jt :=
+  m <- merge_elems v (view root) ;;
+  sub <- of_opt IndexError (subtree m path) ;;
+  s <- collect_from v (rev path) sub ;;
+  let html := html_on v in
+  let pv := pars_view s in
+  pj <- enc_rose (enc_par html) pv ;;
+  rv <- get_par_strings html pv ;;
+  rj <- enc_rose (fun s => Ok (jstr s)) rv ;;
+  Ok (JL [pj; rj]).
+
 Definition enc_enum (l : list (list nat * rose N)) : jt :=
   jlist (fun ax => JL [jlist jnat (fst ax); enc_rose_plain (snd ax)]) l.
 
@@ -118,6 +141,11 @@ Definition run_case (c : jt) : jt :=
       match dec_env html dup rels numtbl, dec_rnode root with
       | Some v, Some r => enc_res (observe_part v r)
       | _, _ => bad_case
+      end
+  | JL [JN 12; html; dup; rels; numtbl; root; JL path] =>
+      match dec_env html dup rels numtbl, dec_rnode root, all_nums path with
+      | Some v, Some r, Some p => enc_res (observe_part_at v r (map N.to_nat p))
+      | _, _, _ => bad_case
       end
   | JL [JN 2; JN depth; nested] =>
       let t := dec_rose nested in
